@@ -1,4 +1,5 @@
 import DendroModel.Model.C11
+import DendroModel.Theory.C11Fresh
 /-! C11 — theorems about the store model of `Model/C11.lean` (the definitions the driver `drv_c11` runs). -/
 namespace DendroModel.C11.Aux
 open DendroModel.C11
@@ -1047,6 +1048,1069 @@ theorem closed_step_partial (s : Store) (op : Op) (h : Inv s) (hv : valid s op =
       exact inv_allocTree (inv_grows g (inv_grows g0 h)) { ns := (newNs s false).2, taxa := (s.tree t).taxa }
         (fun x hx => mem_addAll (newNs s false).2 (s.tree t).taxa (newNs s false).1 x hx)
 
+namespace Aux
+
+/-! ## the remaining operations -/
+
+theorem cloneTree_id (s : Store) (src n : Nat) : (cloneTree s src n).2 = s.nTree := by
+  unfold cloneTree
+  simp only []
+  split
+  · rfl
+  · simp only [allocTree]; exact (grows_cloneMemo n _ s).nTree
+
+theorem cloneTrees_ge (n : Nat) : ∀ (ts : List Nat) {s : Store}, Inv s → ∀ t, t ∈ (cloneTrees s n ts).2 → s.nTree ≤ t
+  | [], _, _ => by simp [cloneTrees]
+  | t0 :: ts, s, h => by
+    simp only [cloneTrees]
+    intro t ht
+    simp at ht
+    obtain ⟨i1, f1, _, _⟩ := inv_cloneTree h t0 n
+    rcases ht with e | ht
+    · rw [e, cloneTree_id]; exact Nat.le_refl _
+    · exact Nat.le_trans f1.nTree (cloneTrees_ge n ts i1 t ht)
+
+/-- `+` with a plain list of trees -/
+theorem inv_add_trees {s : Store} (h : Inv s) (l : Nat) (ts : List Nat)
+    (hv : srcOk s (s.tl l).ns none (.trees ts) = true) : Inv (step s (.add l (.trees ts))).1 := by
+  simp only [step, srcInto]
+  have i1 := inv_allocTl h (s.tl l).ns
+  have lt : (allocTl s (s.tl l).ns).2 < (allocTl s (s.tl l).ns).1.nTl := by simp [allocTl]
+  have i2 := inv_spliceL i1 (allocTl s (s.tl l).ns).2 0 0 l lt
+  obtain ⟨ic, fc, ec⟩ := inv_cloneTrees ((allocTl s (s.tl l).ns).1.tl (allocTl s (s.tl l).ns).2).ns
+        ((allocTl s (s.tl l).ns).1.tl l).trees i1
+  have ge := cloneTrees_ge ((allocTl s (s.tl l).ns).1.tl (allocTl s (s.tl l).ns).2).ns
+        ((allocTl s (s.tl l).ns).1.tl l).trees i1
+  apply inv_spliceT i2
+  · simp only [spliceL, setTrees]; rw [fc.nTl]; exact lt
+  · intro t ht
+    simp only [srcOk, List.all_eq_true, Bool.and_eq_true, decide_eq_true_eq] at hv
+    obtain ⟨hr, hlt⟩ := hv t ht
+    have hlt' : t < (allocTl s (s.tl l).ns).1.nTree := hlt
+    refine ⟨?_, ?_⟩
+    · rcases ok_of_rebindOk_none h hr with e | f
+      · left
+        simp only [spliceL, setTrees, upd, if_true]
+        rw [fc.old t hlt', fc.tl]
+        simp only [allocTl, upd, if_true]
+        exact e
+      · right
+        intro l'
+        simp only [spliceL, setTrees, upd]
+        split
+        · intro hin
+          rcases mem_splice hin with hin | hin
+          · rw [fc.tl] at hin; simp [allocTl, upd] at hin
+          · have := ge t hin
+            have : s.nTree ≤ t := this
+            omega
+        · next ne =>
+          rw [fc.tl]
+          simp only [allocTl, upd]
+          split
+          · simp
+          · exact f l'
+    · simp only [spliceL, setTrees]
+      exact Nat.lt_of_lt_of_le hlt' fc.nTree
+
+/-! ### matrices -/
+
+theorem grows_mapKeys (n : Nat) (u : Bool) : ∀ (xs : List Nat) (s : Store) (memo : Memo) (cur : List Nat),
+    Grows s (mapKeys s n u memo cur xs).1
+  | [], s, _, _ => Grows.refl s
+  | x :: xs, s, memo, cur => by
+    simp only [mapKeys]
+    split
+    · split
+      · exact (grows_mapOne s n u memo x).trans (grows_mapKeys n u xs _ _ _)
+      · split
+        · exact grows_mapOne s n u memo x
+        · exact (grows_mapOne s n u memo x).trans (grows_mapKeys n u xs _ _ _)
+    · exact grows_mapKeys n u xs s memo cur
+
+/-- a pass over the keys that is not refused leaves only members of the target namespace (or keys it was not asked to process) -/
+theorem mem_mapKeys (n : Nat) (u : Bool) : ∀ (xs : List Nat) (s : Store) (memo : Memo) (cur : List Nat),
+    (mapKeys s n u memo cur xs).2.2.2 = true →
+    ∀ k, k ∈ (mapKeys s n u memo cur xs).2.2.1 → k ∈ mem (mapKeys s n u memo cur xs).1 n ∨ (k ∈ cur ∧ k ∉ xs)
+  | [], s, memo, cur => by intro _ k hk; right; simpa [mapKeys] using hk
+  | x :: xs, s, memo, cur => by
+    simp only [mapKeys]
+    split
+    · next hcond =>
+      split
+      · next heq =>
+        intro hok k hk
+        have g := grows_mapKeys n u xs (mapOne s n u memo x).1 (mapOne s n u memo x).2.1 cur
+        rcases mem_mapKeys n u xs _ _ cur hok k hk with hm | ⟨hc, hn⟩
+        · exact Or.inl hm
+        · by_cases e : k = x
+          · left; subst e
+            have := mem_mapOne s n u memo k
+            have heq' : (mapOne s n u memo k).2.2 = k := by simpa using heq
+            rw [heq'] at this
+            exact g.mem _ _ this
+          · right; exact ⟨hc, by simp [e, hn]⟩
+      · split
+        · intro hok; simp at hok
+        · intro hok k hk
+          have g := grows_mapKeys n u xs (mapOne s n u memo x).1 (mapOne s n u memo x).2.1
+            (cur.filter (fun k => k != x) ++ [(mapOne s n u memo x).2.2])
+          rcases mem_mapKeys n u xs _ _ _ hok k hk with hm | ⟨hc, hn⟩
+          · exact Or.inl hm
+          · simp only [List.mem_append, List.mem_filter, List.mem_singleton] at hc
+            rcases hc with ⟨hc, hne⟩ | hc
+            · right
+              have : k ≠ x := by simpa using hne
+              exact ⟨hc, by simp [this, hn]⟩
+            · left; rw [hc]; exact g.mem _ _ (mem_mapOne s n u memo x)
+    · next hcond =>
+      intro hok k hk
+      have g := grows_mapKeys n u xs s memo cur
+      rcases mem_mapKeys n u xs s memo cur hok k hk with hm | ⟨hc, hn⟩
+      · exact Or.inl hm
+      · by_cases e : k = x
+        · left; subst e
+          simp at hcond
+          exact g.mem _ _ (by simpa using hcond.2)
+        · right; exact ⟨hc, by simp [e, hn]⟩
+
+/-- `CharacterMatrix.migrate_taxon_namespace` / `reconstruct_taxon_namespace` that is not refused -/
+theorem inv_migrateMat {s : Store} (h : Inv s) (m n : Nat) (u : Bool) (memo : Memo)
+    (hok : (migrateMat s m n u memo).2.2 = true)
+    (hds : ∀ d a, (s.ds d).att = some a → m ∈ (s.ds d).mats → a = n) : Inv (migrateMat s m n u memo).1 := by
+  simp only [migrateMat] at hok ⊢
+  have g := grows_mapKeys n u (s.mat m).keys s memo (s.mat m).keys
+  obtain ⟨⟨h1, h2, h3, h4⟩, h5, h6, h7, h8⟩ := inv_grows g h
+  refine ⟨⟨h1, ?_, h3, ?_⟩, h5, h6, h7, h8⟩
+  · intro m' x hx
+    simp only [upd] at hx ⊢
+    split at hx
+    · next e =>
+      simp only [e, if_true]
+      rcases mem_mapKeys n u _ s memo _ hok x hx with hm | ⟨hc, hn⟩
+      · exact hm
+      · exact absurd hc hn
+    · next e => simp only [e, if_false]; exact h2 m' x hx
+  · intro d a ha
+    have := h4 d a ha
+    refine ⟨this.1, fun m' hm' => ?_⟩
+    simp only [upd]
+    split
+    · next e =>
+      subst e
+      have ha' : (s.ds d).att = some a := by rw [← g.ds]; exact ha
+      have hm'' : m' ∈ (s.ds d).mats := by rw [← g.ds]; exact hm'
+      exact (hds d a ha' hm'').symm
+    · exact this.2 m' hm'
+
+theorem matFree_fact {s : Store} (h : Inv s) {m n : Nat} (hf : matFreeOfDs s m n none = true) :
+    ∀ d a, (s.ds d).att = some a → m ∈ (s.ds d).mats → a = n := by
+  intro d a ha hm
+  by_cases hd : d < s.nDs
+  · simp only [matFreeOfDs, List.all_eq_true, List.mem_range] at hf
+    have := hf d hd
+    simp [ha] at this
+    rcases this with e | e
+    · exact absurd hm e
+    · exact e
+  · have := (h.dsBlank d (Nat.le_of_not_lt hd)).2
+    rw [this] at hm; simp at hm
+
+theorem mergeKeys_sub : ∀ (xs acc : List Nat) (k : Nat), k ∈ mergeKeys acc xs → k ∈ acc ∨ k ∈ xs
+  | [], acc, k => by simp [mergeKeys]
+  | x :: xs, acc, k => by
+    simp only [mergeKeys]
+    split
+    · intro hk; rcases mergeKeys_sub xs acc k hk with h | h
+      · exact Or.inl h
+      · exact Or.inr (by simp [h])
+    · intro hk; rcases mergeKeys_sub xs _ k hk with h | h
+      · simp at h; rcases h with h | h
+        · exact Or.inl h
+        · exact Or.inr (by simp [h])
+      · exact Or.inr (by simp [h])
+
+/-- `CharacterMatrix(src, taxon_namespace=ns)` (accepted or refused) -/
+theorem inv_cloneMat {s : Store} (h : Inv s) (src n : Nat) : Inv (cloneMat s src n).1 := by
+  unfold cloneMat
+  simp only []
+  split
+  · exact inv_allocMat h _ (h.matOk src)
+  · have g := grows_cloneMemo n (mem s (s.mat src).ns) s
+    split
+    · apply inv_allocMat (inv_grows g h)
+      intro x hx
+      simp only [List.mem_map] at hx
+      obtain ⟨y, hy, e⟩ := hx
+      subst e
+      exact mem_cloneMemo n _ s y (h.matOk src y hy)
+    · exact inv_grows g h
+
+/-! ### `TreeList(other[, taxon_namespace=ns])` -/
+
+theorem applyMemo_id : ∀ (l : List Nat) (y : Nat), applyMemo (l.map (fun x => (x, x))) y = y
+  | [], y => by simp [applyMemo, memoGet]
+  | x :: l, y => by
+    have ih := applyMemo_id l y
+    simp only [applyMemo, memoGet, List.map_cons, List.find?_cons] at ih ⊢
+    by_cases e : x = y
+    · subst e; simp
+    · have : (x == y) = false := by simp [e]
+      simp only [this]; exact ih
+
+theorem memoGet_cons (a b : Nat) (m : List (Nat × Nat)) (q : Nat) :
+    memoGet ((a, b) :: m) q = if a = q then some b else memoGet m q := by
+  simp only [memoGet, List.find?_cons]
+  by_cases e : a = q
+  · subst e; simp
+  · have : (a == q) = false := by simp [e]
+    simp [this, e]
+
+theorem inv_copyTrees (tgt : Nat) (m : Memo) : ∀ (ts : List Nat) {σ : Store} (seen : List (Nat × Nat)), Inv σ →
+    (∀ t, t ∈ ts → t < σ.nTree ∧ ∀ x, some x ∈ (σ.tree t).taxa → applyMemo m x ∈ mem σ tgt) →
+    (∀ t t', memoGet seen t = some t' → (σ.tree t').ns = tgt ∧ t' < σ.nTree) →
+    Inv (copyTrees σ tgt m seen ts).1 ∧ CFrame σ (copyTrees σ tgt m seen ts).1
+      ∧ ∀ t', t' ∈ (copyTrees σ tgt m seen ts).2 →
+          ((copyTrees σ tgt m seen ts).1.tree t').ns = tgt ∧ t' < (copyTrees σ tgt m seen ts).1.nTree
+  | [], σ, seen, h, _, _ => ⟨h, CFrame.refl σ, by simp [copyTrees]⟩
+  | t :: ts, σ, seen, h, hts, hseen => by
+    simp only [copyTrees]
+    split
+    · next t' hg =>
+      obtain ⟨i2, f2, e2⟩ := inv_copyTrees tgt m ts seen h (fun t ht => hts t (by simp [ht])) hseen
+      refine ⟨i2, f2, ?_⟩
+      intro t'' ht''
+      simp at ht''
+      rcases ht'' with e | ht''
+      · subst e
+        obtain ⟨a, b⟩ := hseen t t'' hg
+        rw [f2.old _ b]
+        exact ⟨a, Nat.lt_of_lt_of_le b f2.nTree⟩
+      · exact e2 t'' ht''
+    · next hg =>
+      have i1 : Inv (allocTree σ { ns := tgt, taxa := (σ.tree t).taxa.map (Option.map (applyMemo m)) }).1 := by
+        apply inv_allocTree h
+        intro x hx
+        simp only [List.mem_map] at hx
+        obtain ⟨o, ho, e⟩ := hx
+        cases o with
+        | none => simp at e
+        | some y => simp at e; subst e; exact (hts t (by simp)).2 y ho
+      have f1 := cframe_allocTree σ { ns := tgt, taxa := (σ.tree t).taxa.map (Option.map (applyMemo m)) }
+      have hts' : ∀ t0, t0 ∈ ts → t0 < (allocTree σ { ns := tgt, taxa := (σ.tree t).taxa.map (Option.map (applyMemo m)) }).1.nTree ∧
+          ∀ x, some x ∈ ((allocTree σ { ns := tgt, taxa := (σ.tree t).taxa.map (Option.map (applyMemo m)) }).1.tree t0).taxa →
+            applyMemo m x ∈ mem (allocTree σ { ns := tgt, taxa := (σ.tree t).taxa.map (Option.map (applyMemo m)) }).1 tgt := by
+        intro t0 ht0
+        obtain ⟨a, b⟩ := hts t0 (by simp [ht0])
+        refine ⟨Nat.lt_of_lt_of_le a f1.nTree, ?_⟩
+        rw [f1.old t0 a]
+        exact b
+      have hseen' : ∀ q q', memoGet ((t, (allocTree σ { ns := tgt, taxa := (σ.tree t).taxa.map (Option.map (applyMemo m)) }).2) :: seen) q = some q' →
+          ((allocTree σ { ns := tgt, taxa := (σ.tree t).taxa.map (Option.map (applyMemo m)) }).1.tree q').ns = tgt ∧
+          q' < (allocTree σ { ns := tgt, taxa := (σ.tree t).taxa.map (Option.map (applyMemo m)) }).1.nTree := by
+        intro q q' hq
+        rw [memoGet_cons] at hq
+        split at hq
+        · simp at hq; subst hq; simp [allocTree, upd]
+        · obtain ⟨a, b⟩ := hseen q q' hq
+          rw [f1.old q' b]
+          exact ⟨a, Nat.lt_of_lt_of_le b f1.nTree⟩
+      obtain ⟨i2, f2, e2⟩ := inv_copyTrees tgt m ts _ i1 hts' hseen'
+      refine ⟨i2, f1.trans f2, ?_⟩
+      intro t'' ht''
+      simp at ht''
+      rcases ht'' with e | ht''
+      · subst e
+        have lt : (allocTree σ { ns := tgt, taxa := (σ.tree t).taxa.map (Option.map (applyMemo m)) }).2 <
+            (allocTree σ { ns := tgt, taxa := (σ.tree t).taxa.map (Option.map (applyMemo m)) }).1.nTree := by simp [allocTree]
+        rw [f2.old _ lt]
+        exact ⟨by simp [allocTree, upd], Nat.lt_of_lt_of_le lt f2.nTree⟩
+      · exact e2 t'' ht''
+
+theorem inv_lclone {s : Store} (h : Inv s) (l : Nat) (n : Option Nat) : Inv (step s (.lclone l n)).1 := by
+  simp only [step]
+  -- the memo of both branches maps every member of the source namespace into the target
+  have key : ∀ (r : Store × Memo), r = (if n.getD (s.tl l).ns = (s.tl l).ns then (s, (mem s (s.tl l).ns).map (fun x => (x, x)))
+      else cloneMemo s (n.getD (s.tl l).ns) (mem s (s.tl l).ns)) →
+      Grows s r.1 ∧ ∀ x, x ∈ mem s (s.tl l).ns → applyMemo r.2 x ∈ mem r.1 (n.getD (s.tl l).ns) := by
+    intro r hr
+    split at hr
+    · next e => subst hr; refine ⟨Grows.refl s, fun x hx => ?_⟩; rw [applyMemo_id, e]; exact hx
+    · subst hr; exact ⟨grows_cloneMemo _ _ s, fun x hx => mem_cloneMemo _ _ s x hx⟩
+  generalize hr : (if n.getD (s.tl l).ns = (s.tl l).ns then (s, (mem s (s.tl l).ns).map (fun x => (x, x)))
+      else cloneMemo s (n.getD (s.tl l).ns) (mem s (s.tl l).ns)) = r
+  obtain ⟨g, hm⟩ := key r hr.symm
+  have i1 := inv_allocTl (inv_grows g h) (n.getD (s.tl l).ns)
+  have hts : ∀ t, t ∈ (s.tl l).trees → t < (allocTl r.1 (n.getD (s.tl l).ns)).1.nTree ∧
+      ∀ x, some x ∈ ((allocTl r.1 (n.getD (s.tl l).ns)).1.tree t).taxa →
+        applyMemo r.2 x ∈ mem (allocTl r.1 (n.getD (s.tl l).ns)).1 (n.getD (s.tl l).ns) := by
+    intro t ht
+    refine ⟨by simp only [allocTl]; rw [g.nTree]; exact h.treeLt l t ht, ?_⟩
+    intro x hx
+    have hx' : some x ∈ (s.tree t).taxa := by
+      have : (allocTl r.1 (n.getD (s.tl l).ns)).1.tree = s.tree := g.tree
+      rw [this] at hx; exact hx
+    have := h.treeOk t x hx'
+    rw [h.listOk l t ht] at this
+    exact hm x this
+  obtain ⟨i2, f2, e2⟩ := inv_copyTrees (n.getD (s.tl l).ns) r.2 (s.tl l).trees [] i1 hts (by intro t t' hg; simp [memoGet] at hg)
+  apply inv_setTrees i2 _ _ (by rw [f2.nTl]; simp [allocTl])
+  intro t' ht'
+  rw [f2.tl]
+  simp only [allocTl, upd, if_true]
+  exact e2 t' ht'
+
+/-! ### collection-level migrations: the invariant with some lists exempt while their trees are being re-bound -/
+
+/-- `Inv`, except that clause (a) for tree lists is only asserted for the lists satisfying `P` -/
+structure InvW (P Q : Nat → Prop) (s : Store) : Prop where
+  treeOk : ∀ t x, some x ∈ (s.tree t).taxa → x ∈ mem s (s.tree t).ns
+  matOk : ∀ m x, x ∈ (s.mat m).keys → x ∈ mem s (s.mat m).ns
+  listOk : ∀ l, P l → ∀ t, t ∈ (s.tl l).trees → (s.tree t).ns = (s.tl l).ns
+  dsOk : ∀ d a, Q d → (s.ds d).att = some a →
+    (∀ l, l ∈ (s.ds d).tls → (s.tl l).ns = a) ∧ (∀ m, m ∈ (s.ds d).mats → (s.mat m).ns = a)
+  tlBlank : ∀ l, s.nTl ≤ l → (s.tl l).trees = []
+  dsBlank : ∀ d, s.nDs ≤ d → (s.ds d).tls = [] ∧ (s.ds d).mats = []
+  treeLt : ∀ l t, t ∈ (s.tl l).trees → t < s.nTree
+  dsLt : ∀ d, (∀ l, l ∈ (s.ds d).tls → l < s.nTl) ∧ (∀ m, m ∈ (s.ds d).mats → m < s.nMat)
+
+theorem invW_of_inv {s : Store} (P Q : Nat → Prop) (h : Inv s) : InvW P Q s :=
+  ⟨h.treeOk, h.matOk, fun l _ => h.listOk l, fun d a _ => h.dsOk d a, h.tlBlank, h.dsBlank, h.treeLt, h.dsLt⟩
+
+theorem inv_of_invW {s : Store} {P Q : Nat → Prop} (h : InvW P Q s)
+    (hl : ∀ l, ¬ P l → ∀ t, t ∈ (s.tl l).trees → (s.tree t).ns = (s.tl l).ns)
+    (hd : ∀ d a, ¬ Q d → (s.ds d).att = some a →
+      (∀ l, l ∈ (s.ds d).tls → (s.tl l).ns = a) ∧ (∀ m, m ∈ (s.ds d).mats → (s.mat m).ns = a)) : Inv s :=
+  ⟨⟨h.treeOk, h.matOk, fun l t ht => by
+      by_cases p : P l
+      · exact h.listOk l p t ht
+      · exact hl l p t ht, fun d a ha => by
+      by_cases q : Q d
+      · exact h.dsOk d a q ha
+      · exact hd d a q ha⟩, h.tlBlank, h.dsBlank, h.treeLt, h.dsLt⟩
+
+theorem invW_grows {P Q : Nat → Prop} {s s' : Store} (g : Grows s s') (h : InvW P Q s) : InvW P Q s' := by
+  obtain ⟨h1, h2, h3, h4, h5, h6, h7, h8⟩ := h
+  refine ⟨?_, ?_, ?_, ?_, ?_, ?_, ?_, ?_⟩
+  · intro t x hx; rw [g.tree] at hx ⊢; exact g.mem _ _ (h1 t x hx)
+  · intro m x hx; rw [g.mat] at hx ⊢; exact g.mem _ _ (h2 m x hx)
+  · intro l p t ht; rw [g.tl] at ht ⊢; rw [g.tree]; exact h3 l p t ht
+  · intro d a q ha; rw [g.ds] at ha ⊢; rw [g.tl, g.mat]; exact h4 d a q ha
+  · intro l hl; rw [g.tl]; rw [g.nTl] at hl; exact h5 l hl
+  · intro d hd; rw [g.ds]; rw [g.nDs] at hd; exact h6 d hd
+  · intro l t ht; rw [g.tl] at ht; rw [g.nTree]; exact h7 l t ht
+  · intro d; rw [g.ds, g.nTl, g.nMat]; exact h8 d
+
+theorem invW_setTree {P Q : Nat → Prop} {s : Store} (h : InvW P Q s) (t : Nat) (v : Tree)
+    (hv : ∀ x, some x ∈ v.taxa → x ∈ mem s v.ns)
+    (hl : ∀ l, P l → t ∈ (s.tl l).trees → (s.tl l).ns = v.ns) : InvW P Q (setTree s t v) := by
+  obtain ⟨h1, h2, h3, h4, h5, h6, h7, h8⟩ := h
+  refine ⟨?_, h2, ?_, h4, h5, h6, h7, h8⟩
+  · intro t' x hx
+    simp only [setTree, upd] at hx ⊢
+    split at hx
+    · next e => simp only [e, if_true]; exact hv x hx
+    · next e => simp only [e, if_false]; exact h1 t' x hx
+  · intro l p t' ht'
+    simp only [setTree, upd] at ht' ⊢
+    split
+    · next e => subst e; exact (hl l p ht').symm
+    · exact h3 l p t' ht'
+
+/-- what a pass over trees leaves untouched -/
+structure MFrame (s s' : Store) : Prop where
+  tl : s'.tl = s.tl
+  nTl : s'.nTl = s.nTl
+  nTree : s'.nTree = s.nTree
+  mat : s'.mat = s.mat
+  nMat : s'.nMat = s.nMat
+  ds : s'.ds = s.ds
+  nDs : s'.nDs = s.nDs
+  nNs : s.nNs ≤ s'.nNs
+
+theorem MFrame.refl (s : Store) : MFrame s s := ⟨rfl, rfl, rfl, rfl, rfl, rfl, rfl, Nat.le_refl _⟩
+theorem MFrame.trans {a b c : Store} (h1 : MFrame a b) (h2 : MFrame b c) : MFrame a c :=
+  ⟨h2.tl.trans h1.tl, h2.nTl.trans h1.nTl, h2.nTree.trans h1.nTree, h2.mat.trans h1.mat, h2.nMat.trans h1.nMat,
+   h2.ds.trans h1.ds, h2.nDs.trans h1.nDs, Nat.le_trans h1.nNs h2.nNs⟩
+
+theorem invW_migrateTree {P Q : Nat → Prop} {s : Store} (h : InvW P Q s) (t n : Nat) (u : Bool) (memo : Memo)
+    (hl : ∀ l, P l → t ∈ (s.tl l).trees → (s.tl l).ns = n) :
+    InvW P Q (migrateTree s t n u memo).1 ∧ (migrateTree s t n u memo).1.tl = s.tl
+      ∧ (migrateTree s t n u memo).1.mat = s.mat ∧ (migrateTree s t n u memo).1.ds = s.ds
+      ∧ (migrateTree s t n u memo).1.nTl = s.nTl ∧ (migrateTree s t n u memo).1.nDs = s.nDs
+      ∧ (migrateTree s t n u memo).1.nMat = s.nMat ∧ (migrateTree s t n u memo).1.nTree = s.nTree
+      ∧ ((migrateTree s t n u memo).1.tree t).ns = n
+      ∧ (∀ t', t' ≠ t → (migrateTree s t n u memo).1.tree t' = s.tree t')
+      ∧ (∀ k, mem s k ⊆ mem (migrateTree s t n u memo).1 k) := by
+  simp only [migrateTree]
+  have g := grows_mapTaxa n u (s.tree t).taxa s memo
+  refine ⟨?_, g.tl, g.mat, g.ds, g.nTl, g.nDs, g.nMat, g.nTree, by simp [setTree, upd], ?_, fun k x hx => g.mem k x hx⟩
+  · apply invW_setTree (invW_grows g h)
+    · intro x hx; exact mem_mapTaxa n u _ s memo x hx
+    · intro l p hin; rw [g.tl] at hin ⊢; exact hl l p hin
+  · intro t' ht'; simp [setTree, upd, ht', g.tree]
+
+theorem invW_migrateTrees {P Q : Nat → Prop} (n : Nat) (u : Bool) : ∀ (ts : List Nat) {s : Store} (memo : Memo), InvW P Q s →
+    (∀ t, t ∈ ts → ∀ l, P l → t ∈ (s.tl l).trees → (s.tl l).ns = n) →
+    InvW P Q (migrateTrees s n u memo ts).1 ∧ (migrateTrees s n u memo ts).1.tl = s.tl
+      ∧ (migrateTrees s n u memo ts).1.mat = s.mat ∧ (migrateTrees s n u memo ts).1.ds = s.ds
+      ∧ (migrateTrees s n u memo ts).1.nTl = s.nTl ∧ (migrateTrees s n u memo ts).1.nDs = s.nDs
+      ∧ (migrateTrees s n u memo ts).1.nMat = s.nMat ∧ (migrateTrees s n u memo ts).1.nTree = s.nTree
+      ∧ (∀ t, t ∈ ts → ((migrateTrees s n u memo ts).1.tree t).ns = n)
+      ∧ (∀ t, ((migrateTrees s n u memo ts).1.tree t).ns = (s.tree t).ns ∨ ((migrateTrees s n u memo ts).1.tree t).ns = n)
+      ∧ (∀ k, mem s k ⊆ mem (migrateTrees s n u memo ts).1 k)
+  | [], s, memo, h, _ => ⟨h, rfl, rfl, rfl, rfl, rfl, rfl, rfl, by simp, fun _ => Or.inl rfl, fun _ _ hx => hx⟩
+  | t :: ts, s, memo, h, hl => by
+    simp only [migrateTrees]
+    obtain ⟨i1, a1, b1, c1, d1, e1, f1, g1, n1, o1, m1⟩ := invW_migrateTree h t n u memo (hl t (by simp))
+    obtain ⟨i2, a2, b2, c2, d2, e2, f2, g2, n2, o2, m2⟩ := invW_migrateTrees n u ts (migrateTree s t n u memo).2 i1
+      (fun t' ht' l p hin => by rw [a1] at hin ⊢; exact hl t' (by simp [ht']) l p hin)
+    refine ⟨i2, a2.trans a1, b2.trans b1, c2.trans c1, d2.trans d1, e2.trans e1, f2.trans f1, g2.trans g1, ?_, ?_,
+      fun k x hx => m2 k (m1 k hx)⟩
+    · intro t' ht'
+      simp at ht'
+      rcases ht' with e | ht'
+      · subst e
+        rcases o2 t' with o | o
+        · rw [o]; exact n1
+        · exact o
+      · exact n2 t' ht'
+    · intro t'
+      rcases o2 t' with o | o
+      · by_cases e : t' = t
+        · subst e; right; rw [o]; exact n1
+        · left; rw [o, o1 t' e]
+      · exact Or.inr o
+
+/-- `TreeList.migrate_taxon_namespace` with list `l` (and data sets failing `Q`) exempt while it runs -/
+theorem invW_migrateTl {P Q : Nat → Prop} {s : Store} (h : InvW P Q s) (l n : Nat) (u : Bool) (memo : Memo)
+    (hnP : ¬ P l)
+    (hds : ∀ d a, Q d → (s.ds d).att = some a → l ∈ (s.ds d).tls → a = n)
+    (hsh : ∀ t, t ∈ (s.tl l).trees → ∀ l', P l' → t ∈ (s.tl l').trees → (s.tl l').ns = n) :
+    InvW P Q (migrateTl s l n u memo).1
+      ∧ ((migrateTl s l n u memo).1.tl l).ns = n ∧ ((migrateTl s l n u memo).1.tl l).trees = (s.tl l).trees
+      ∧ (∀ l', l' ≠ l → (migrateTl s l n u memo).1.tl l' = s.tl l')
+      ∧ (migrateTl s l n u memo).1.mat = s.mat ∧ (migrateTl s l n u memo).1.ds = s.ds
+      ∧ (migrateTl s l n u memo).1.nTl = s.nTl ∧ (migrateTl s l n u memo).1.nDs = s.nDs
+      ∧ (migrateTl s l n u memo).1.nMat = s.nMat ∧ (migrateTl s l n u memo).1.nTree = s.nTree
+      ∧ (∀ t, t ∈ (s.tl l).trees → ((migrateTl s l n u memo).1.tree t).ns = n)
+      ∧ (∀ t, ((migrateTl s l n u memo).1.tree t).ns = (s.tree t).ns ∨ ((migrateTl s l n u memo).1.tree t).ns = n)
+      ∧ (∀ k, mem s k ⊆ mem (migrateTl s l n u memo).1 k) := by
+  simp only [migrateTl]
+  have hw : InvW P Q { s with tl := upd s.tl l { (s.tl l) with ns := n } } := by
+    obtain ⟨h1, h2, h3, h4, h5, h6, h7, h8⟩ := h
+    refine ⟨h1, h2, ?_, ?_, ?_, h6, ?_, h8⟩
+    · intro l' p t ht
+      have ne : l' ≠ l := fun e => hnP (e ▸ p)
+      simp only [upd, ne, if_false] at ht ⊢
+      exact h3 l' p t ht
+    · intro d a q ha
+      have := h4 d a q ha
+      refine ⟨fun l' hl' => ?_, this.2⟩
+      simp only [upd]
+      split
+      · next e => subst e; exact (hds d a q ha hl').symm
+      · exact this.1 l' hl'
+    · intro l' hl'
+      simp only [upd]
+      split
+      · next e => subst e; exact h5 l' hl'
+      · exact h5 l' hl'
+    · intro l' t ht
+      simp only [upd] at ht
+      split at ht
+      · next e => subst e; exact h7 l' t ht
+      · exact h7 l' t ht
+  obtain ⟨i, a, b, c, d, e, f, g, nn, o, m⟩ := invW_migrateTrees (P := P) (Q := Q) n u (s.tl l).trees memo hw (by
+    intro t ht l' p hin
+    have ne : l' ≠ l := fun e => hnP (e ▸ p)
+    simp only [upd, ne, if_false] at hin ⊢
+    exact hsh t ht l' p hin)
+  refine ⟨i, ?_, ?_, ?_, b, c, d, e, f, g, nn, o, m⟩
+  · rw [a]; simp [upd]
+  · rw [a]; simp [upd]
+  · intro l' ne; rw [a]; simp [upd, ne]
+
+theorem tlFree_fact {s : Store} (h : Inv s) {l n : Nat} {ex : Option Nat} (hf : tlFreeOfDs s l n ex = true) :
+    ∀ d a, some d ≠ ex → (s.ds d).att = some a → l ∈ (s.ds d).tls → a = n := by
+  intro d a hne ha hm
+  by_cases hd : d < s.nDs
+  · simp only [tlFreeOfDs, List.all_eq_true, List.mem_range] at hf
+    have := hf d hd
+    simp [ha] at this
+    rcases this with (e | e) | e
+    · exact absurd e hne
+    · exact absurd hm e
+    · exact e
+  · have := (h.dsBlank d (Nat.le_of_not_lt hd)).1
+    rw [this] at hm; simp at hm
+
+/-- `TreeList.migrate_taxon_namespace` / `reconstruct_taxon_namespace` inside the ownership domain -/
+theorem inv_migrateTl {s : Store} (h : Inv s) (l n : Nat) (u : Bool) (hv : tlRebindOk s l n none = true) :
+    Inv (migrateTl s l n u []).1 := by
+  have hcase : (s.tl l).ns = n ∨ ((∀ t, t ∈ (s.tl l).trees → ∀ l', l' ≠ l → t ∉ (s.tl l').trees)
+      ∧ ∀ d a, (s.ds d).att = some a → l ∈ (s.ds d).tls → a = n) := by
+    simp only [tlRebindOk, Bool.or_eq_true, beq_iff_eq, Bool.and_eq_true, List.all_eq_true] at hv
+    rcases hv with e | ⟨f, g⟩
+    · exact Or.inl e
+    · right
+      refine ⟨fun t ht l' ne => free_of_freeTree h (f t ht) l' (by simp [ne]), ?_⟩
+      intro d a ha hm
+      exact tlFree_fact h g d a (by simp) ha hm
+  obtain ⟨i, a, b, c, _, _, _, _, _, _, nn, _, _⟩ := invW_migrateTl (P := fun l' => l' ≠ l) (Q := fun _ => True)
+    (invW_of_inv _ _ h) l n u [] (by simp)
+    (by
+      intro d a _ ha hm
+      rcases hcase with e | ⟨_, g⟩
+      · rw [← e]; exact ((h.dsOk d a ha).1 l hm).symm
+      · exact g d a ha hm)
+    (by
+      intro t ht l' ne hin
+      rcases hcase with e | ⟨f, _⟩
+      · rw [← e, ← h.listOk l t ht]; exact (h.listOk l' t hin).symm
+      · exact absurd hin (f t ht l' ne))
+  apply inv_of_invW i
+  · intro l' hn t ht
+    have e : l' = l := by simpa using hn
+    subst e
+    rw [b] at ht
+    rw [a]; exact nn t ht
+  · intro d a q; exact absurd trivial q
+
+/-! ### `DataSet.unify_taxon_namespaces` -/
+
+/-- the static side conditions under which tree list `l` may be re-bound to `tgt` while the lists failing `P` and the data
+sets failing `Q` are exempt -/
+def HL (P Q : Nat → Prop) (tgt : Nat) (σ : Store) (l : Nat) : Prop :=
+  (∀ d' a, Q d' → (σ.ds d').att = some a → l ∈ (σ.ds d').tls → a = tgt)
+  ∧ (∀ t, t ∈ (σ.tl l).trees → ∀ l', P l' → t ∈ (σ.tl l').trees → (σ.tl l').ns = tgt)
+
+theorem invW_migrateTls {P Q : Nat → Prop} (tgt : Nat) : ∀ (ls : List Nat) {σ : Store} (memo : Memo), InvW P Q σ →
+    (∀ l, l ∈ ls → ¬ P l ∧ HL P Q tgt σ l) →
+    InvW P Q (migrateTls σ tgt memo ls).1
+      ∧ (migrateTls σ tgt memo ls).1.ds = σ.ds ∧ (migrateTls σ tgt memo ls).1.mat = σ.mat
+      ∧ (migrateTls σ tgt memo ls).1.nTl = σ.nTl ∧ (migrateTls σ tgt memo ls).1.nDs = σ.nDs
+      ∧ (migrateTls σ tgt memo ls).1.nMat = σ.nMat
+      ∧ (∀ l, ((migrateTls σ tgt memo ls).1.tl l).trees = (σ.tl l).trees)
+      ∧ (∀ l', P l' → (migrateTls σ tgt memo ls).1.tl l' = σ.tl l')
+      ∧ (∀ l, l ∈ ls → ((migrateTls σ tgt memo ls).1.tl l).ns = tgt
+            ∧ ∀ t, t ∈ (σ.tl l).trees → ((migrateTls σ tgt memo ls).1.tree t).ns = tgt)
+      ∧ (∀ l, ((migrateTls σ tgt memo ls).1.tl l).ns = (σ.tl l).ns ∨ ((migrateTls σ tgt memo ls).1.tl l).ns = tgt)
+      ∧ (∀ t, ((migrateTls σ tgt memo ls).1.tree t).ns = (σ.tree t).ns ∨ ((migrateTls σ tgt memo ls).1.tree t).ns = tgt)
+  | [], σ, memo, h, _ => ⟨h, rfl, rfl, rfl, rfl, rfl, fun _ => rfl, fun _ _ => rfl, by simp, fun _ => Or.inl rfl, fun _ => Or.inl rfl⟩
+  | l :: ls, σ, memo, h, hl => by
+    simp only [migrateTls]
+    obtain ⟨hnP, hd, hs⟩ := hl l (by simp)
+    obtain ⟨i1, a1, b1, c1, m1, d1, t1, e1, f1, _, n1, o1, _⟩ := invW_migrateTl h l tgt true memo hnP hd hs
+    have trees1 : ∀ l0, ((migrateTl σ l tgt true memo).1.tl l0).trees = (σ.tl l0).trees := by
+      intro l0
+      by_cases e : l0 = l
+      · subst e; exact b1
+      · rw [c1 l0 e]
+    have tlP : ∀ l', P l' → (migrateTl σ l tgt true memo).1.tl l' = σ.tl l' := by
+      intro l' p
+      exact c1 l' (fun e => hnP (e ▸ p))
+    have hl' : ∀ l0, l0 ∈ ls → ¬ P l0 ∧ HL P Q tgt (migrateTl σ l tgt true memo).1 l0 := by
+      intro l0 h0
+      obtain ⟨p0, hd0, hs0⟩ := hl l0 (by simp [h0])
+      refine ⟨p0, ?_, ?_⟩
+      · intro d' a q ha hm; rw [d1] at ha hm; exact hd0 d' a q ha hm
+      · intro t ht l' p hin
+        rw [trees1] at ht hin
+        rw [tlP l' p]
+        exact hs0 t ht l' p hin
+    obtain ⟨i2, d2, m2, t2, e2, f2, tr2, p2, dn2, ln2, tn2⟩ := invW_migrateTls tgt ls (migrateTl σ l tgt true memo).2 i1 hl'
+    refine ⟨i2, d2.trans d1, m2.trans m1, t2.trans t1, e2.trans e1, f2.trans f1, ?_, ?_, ?_, ?_, ?_⟩
+    · intro l0; rw [tr2, trees1]
+    · intro l' p; rw [p2 l' p, tlP l' p]
+    · intro l0 h0
+      simp at h0
+      rcases h0 with e | h0
+      · subst e
+        refine ⟨?_, ?_⟩
+        · rcases ln2 l0 with o | o
+          · rw [o]; exact a1
+          · exact o
+        · intro t ht
+          rcases tn2 t with o | o
+          · rw [o]; exact n1 t ht
+          · exact o
+      · obtain ⟨x, y⟩ := dn2 l0 h0
+        exact ⟨x, fun t ht => y t (by rw [trees1]; exact ht)⟩
+    · intro l0
+      rcases ln2 l0 with o | o
+      · by_cases e : l0 = l
+        · subst e; right; rw [o]; exact a1
+        · left; rw [o, c1 l0 e]
+      · exact Or.inr o
+    · intro t
+      rcases tn2 t with o | o
+      · rcases o1 t with o' | o'
+        · left; rw [o, o']
+        · right; rw [o, o']
+      · exact Or.inr o
+
+theorem invW_migrateMat {P Q : Nat → Prop} {s : Store} (h : InvW P Q s) (m n : Nat) (u : Bool) (memo : Memo)
+    (hok : (migrateMat s m n u memo).2.2 = true)
+    (hds : ∀ d a, Q d → (s.ds d).att = some a → m ∈ (s.ds d).mats → a = n) :
+    InvW P Q (migrateMat s m n u memo).1 ∧ (migrateMat s m n u memo).1.tl = s.tl ∧ (migrateMat s m n u memo).1.tree = s.tree
+      ∧ (migrateMat s m n u memo).1.ds = s.ds ∧ (migrateMat s m n u memo).1.nTl = s.nTl
+      ∧ (migrateMat s m n u memo).1.nDs = s.nDs ∧ (migrateMat s m n u memo).1.nMat = s.nMat
+      ∧ ((migrateMat s m n u memo).1.mat m).ns = n
+      ∧ (∀ m', m' ≠ m → (migrateMat s m n u memo).1.mat m' = s.mat m') := by
+  simp only [migrateMat] at hok ⊢
+  have g := grows_mapKeys n u (s.mat m).keys s memo (s.mat m).keys
+  obtain ⟨h1, h2, h3, h4, h5, h6, h7, h8⟩ := invW_grows (P := P) (Q := Q) g h
+  refine ⟨⟨h1, ?_, h3, ?_, h5, h6, h7, h8⟩, g.tl, g.tree, g.ds, g.nTl, g.nDs, g.nMat, by simp [upd], ?_⟩
+  · intro m' x hx
+    simp only [upd] at hx ⊢
+    split at hx
+    · next e =>
+      simp only [e, if_true]
+      rcases mem_mapKeys n u _ s memo _ hok x hx with hm | ⟨hc, hn⟩
+      · exact hm
+      · exact absurd hc hn
+    · next e => simp only [e, if_false]; exact h2 m' x hx
+  · intro d a q ha
+    have := h4 d a q ha
+    refine ⟨this.1, fun m' hm' => ?_⟩
+    simp only [upd]
+    split
+    · next e =>
+      subst e
+      have ha' : (s.ds d).att = some a := by rw [← g.ds]; exact ha
+      have hm'' : m' ∈ (s.ds d).mats := by rw [← g.ds]; exact hm'
+      exact (hds d a q ha' hm'').symm
+    · exact this.2 m' hm'
+  · intro m' ne; simp [upd, ne, g.mat]
+
+theorem invW_migrateMats {P Q : Nat → Prop} (tgt : Nat) : ∀ (ms : List Nat) {σ : Store} (memo : Memo), InvW P Q σ →
+    (migrateMats σ tgt memo ms).2.2 = true →
+    (∀ m, m ∈ ms → ∀ d a, Q d → (σ.ds d).att = some a → m ∈ (σ.ds d).mats → a = tgt) →
+    InvW P Q (migrateMats σ tgt memo ms).1 ∧ (migrateMats σ tgt memo ms).1.tl = σ.tl
+      ∧ (migrateMats σ tgt memo ms).1.tree = σ.tree ∧ (migrateMats σ tgt memo ms).1.ds = σ.ds
+      ∧ (migrateMats σ tgt memo ms).1.nTl = σ.nTl ∧ (migrateMats σ tgt memo ms).1.nDs = σ.nDs
+      ∧ (migrateMats σ tgt memo ms).1.nMat = σ.nMat
+      ∧ (∀ m, m ∈ ms → ((migrateMats σ tgt memo ms).1.mat m).ns = tgt)
+      ∧ (∀ m, ((migrateMats σ tgt memo ms).1.mat m).ns = (σ.mat m).ns ∨ ((migrateMats σ tgt memo ms).1.mat m).ns = tgt)
+  | [], σ, memo, h, _, _ => ⟨h, rfl, rfl, rfl, rfl, rfl, rfl, by simp, fun _ => Or.inl rfl⟩
+  | m :: ms, σ, memo, h, hok, hd => by
+    simp only [migrateMats] at hok ⊢
+    split at hok
+    · next ok1 =>
+      simp only [ok1, if_true]
+      obtain ⟨i1, a1, b1, c1, d1, e1, f1, n1, o1⟩ := invW_migrateMat h m tgt true memo ok1 (hd m (by simp))
+      obtain ⟨i2, a2, b2, c2, d2, e2, f2, n2, o2⟩ := invW_migrateMats tgt ms (migrateMat σ m tgt true memo).2.1 i1 hok
+        (fun m' hm' d a q ha hin => by rw [c1] at ha hin; exact hd m' (by simp [hm']) d a q ha hin)
+      refine ⟨i2, a2.trans a1, b2.trans b1, c2.trans c1, d2.trans d1, e2.trans e1, f2.trans f1, ?_, ?_⟩
+      · intro m' hm'
+        simp at hm'
+        rcases hm' with e | hm'
+        · subst e
+          rcases o2 m' with o | o
+          · rw [o]; exact n1
+          · exact o
+        · exact n2 m' hm'
+      · intro m'
+        rcases o2 m' with o | o
+        · by_cases e : m' = m
+          · subst e; right; rw [o]; exact n1
+          · left; rw [o, o1 m' e]
+        · exact Or.inr o
+    · next ok1 => exact absurd hok ok1
+
+theorem invW_setDs {P : Nat → Prop} {s : Store} (d : Nat) (h : InvW P (fun d' => d' ≠ d) s) (v : DS) (hd : d < s.nDs)
+    (hl : ∀ l, l ∈ v.tls → l < s.nTl) (hm : ∀ m, m ∈ v.mats → m < s.nMat) : InvW P (fun d' => d' ≠ d) (setDs s d v) := by
+  obtain ⟨h1, h2, h3, h4, h5, h6, h7, h8⟩ := h
+  refine ⟨h1, h2, h3, ?_, h5, ?_, h7, ?_⟩
+  · intro d' a q ha
+    simp only [setDs, upd, q, if_false] at ha ⊢
+    exact h4 d' a q ha
+  · intro d' hd'
+    have : d' ≠ d := by simp only [setDs] at hd'; omega
+    simp only [setDs, upd, this, if_false]
+    exact h6 d' hd'
+  · intro d'
+    simp only [setDs, upd]
+    split
+    · exact ⟨hl, hm⟩
+    · exact h8 d'
+
+theorem inv_of_invW_setDs {P : Nat → Prop} {s : Store} (d : Nat) (h : InvW P (fun d' => d' ≠ d) s)
+    (hlist : ∀ l, ¬ P l → ∀ t, t ∈ (s.tl l).trees → (s.tree t).ns = (s.tl l).ns)
+    (v : DS) (hd : d < s.nDs)
+    (ha : ∀ a, v.att = some a → (∀ l, l ∈ v.tls → (s.tl l).ns = a) ∧ (∀ m, m ∈ v.mats → (s.mat m).ns = a))
+    (hl : ∀ l, l ∈ v.tls → l < s.nTl) (hm : ∀ m, m ∈ v.mats → m < s.nMat) : Inv (setDs s d v) := by
+  have w := invW_setDs d h v hd hl hm
+  apply inv_of_invW w
+  · intro l np t ht; exact hlist l np t ht
+  · intro d' a nq hatt
+    have e : d' = d := by simpa using nq
+    subst e
+    simp only [setDs, upd, if_true] at hatt ⊢
+    exact ha a hatt
+
+theorem matFree_fact' {s : Store} (h : Inv s) {m n : Nat} {ex : Option Nat} (hf : matFreeOfDs s m n ex = true) :
+    ∀ d a, some d ≠ ex → (s.ds d).att = some a → m ∈ (s.ds d).mats → a = n := by
+  intro d a hne ha hm
+  by_cases hd : d < s.nDs
+  · simp only [matFreeOfDs, List.all_eq_true, List.mem_range] at hf
+    have := hf d hd
+    simp [ha] at this
+    rcases this with (e | e) | e
+    · exact absurd e hne
+    · exact absurd hm e
+    · exact e
+  · have := (h.dsBlank d (Nat.le_of_not_lt hd)).2
+    rw [this] at hm; simp at hm
+
+/-- the migrating part of `unify_taxon_namespaces`, from any store in which the data set's lists and the data set itself are exempt -/
+theorem inv_unify_core {σ0 : Store} (d tgt : Nat) (tls mats : List Nat)
+    (hw : InvW (fun l => l ∉ tls) (fun d' => d' ≠ d) σ0) (hd : d < σ0.nDs)
+    (htls : (σ0.ds d).tls = tls) (hmats : (σ0.ds d).mats = mats)
+    (hL : ∀ l, l ∈ tls → HL (fun l => l ∉ tls) (fun d' => d' ≠ d) tgt σ0 l)
+    (hM : ∀ m, m ∈ mats → ∀ d' a, d' ≠ d → (σ0.ds d').att = some a → m ∈ (σ0.ds d').mats → a = tgt)
+    (hok : (migrateMats (migrateTls σ0 tgt [] tls).1 tgt (migrateTls σ0 tgt [] tls).2 mats).2.2 = true)
+    (nss' : List Nat) :
+    Inv (setDs (migrateMats (migrateTls σ0 tgt [] tls).1 tgt (migrateTls σ0 tgt [] tls).2 mats).1 d
+      { ((migrateMats (migrateTls σ0 tgt [] tls).1 tgt (migrateTls σ0 tgt [] tls).2 mats).1.ds d) with
+          nss := nss', att := some tgt }) := by
+  obtain ⟨i1, d1, m1, t1, e1, f1, tr1, p1, dn1, _, _⟩ := invW_migrateTls (P := fun l => l ∉ tls) (Q := fun d' => d' ≠ d)
+    tgt tls [] hw (fun l hl => ⟨by simpa using hl, hL l hl⟩)
+  obtain ⟨i2, a2, b2, c2, d2, e2, f2, n2, _⟩ := invW_migrateMats (P := fun l => l ∉ tls) (Q := fun d' => d' ≠ d)
+    tgt mats (migrateTls σ0 tgt [] tls).2 i1 hok
+    (fun m hm d' a q ha hin => by rw [d1] at ha hin; exact hM m hm d' a q ha hin)
+  have dsd : (migrateMats (migrateTls σ0 tgt [] tls).1 tgt (migrateTls σ0 tgt [] tls).2 mats).1.ds d = σ0.ds d := by
+    rw [c2, d1]
+  apply inv_of_invW_setDs d i2
+  · intro l np t ht
+    have hl : l ∈ tls := by simpa using np
+    rw [a2, b2] at *
+    rw [tr1] at ht
+    obtain ⟨x, y⟩ := dn1 l hl
+    rw [x]; exact y t ht
+  · rw [e2, e1]; exact hd
+  · intro a ha
+    simp only at ha
+    have e : a = tgt := (Option.some.inj ha).symm
+    subst e
+    rw [dsd]
+    refine ⟨fun l hl => ?_, fun m hm => ?_⟩
+    · rw [htls] at hl; rw [a2]; exact (dn1 l hl).1
+    · rw [hmats] at hm; exact n2 m hm
+  · intro l hl
+    rw [dsd, htls] at hl
+    rw [d2, t1]
+    have := (hw.dsLt d).1 l (by rw [htls]; exact hl)
+    exact this
+  · intro m hm
+    rw [dsd, hmats] at hm
+    rw [f2, f1]
+    exact (hw.dsLt d).2 m (by rw [hmats]; exact hm)
+
+theorem inv_dsunify {s : Store} (h : Inv s) (d : Nat) (n : Option Nat) (hd : d < s.nDs)
+    (ho : owner s (.dsunify d n) = true) : Inv (step s (.dsunify d n)).1 := by
+  simp only [owner, Bool.and_eq_true, List.all_eq_true, Bool.or_eq_true, beq_iff_eq] at ho
+  obtain ⟨⟨hA, hB⟩, hC⟩ := ho
+  -- static side conditions, in terms of `s`
+  have hLs : ∀ l, l ∈ (s.ds d).tls →
+      (∀ d' a, d' ≠ d → (s.ds d').att = some a → l ∈ (s.ds d').tls → a = n.getD s.nNs)
+      ∧ (∀ t, t ∈ (s.tl l).trees → ∀ l', l' ∉ (s.ds d).tls → t ∈ (s.tl l').trees → (s.tl l').ns = n.getD s.nNs) := by
+    intro l hl
+    rcases hA l hl with e | ⟨f, g⟩
+    · refine ⟨fun d' a _ ha hm => ?_, fun t ht l' _ hin => ?_⟩
+      · rw [← e]; exact ((h.dsOk d' a ha).1 l hm).symm
+      · rw [← e, ← h.listOk l t ht]; exact (h.listOk l' t hin).symm
+    · refine ⟨fun d' a ne ha hm => tlFree_fact h g d' a (by simp [ne]) ha hm, fun t ht l' hn hin => ?_⟩
+      by_cases hl' : l' < s.nTl
+      · have := f t ht l' (by simpa using hl')
+        simp at this
+        rcases this with x | x
+        · exact absurd hin x
+        · exact absurd x hn
+      · have := h.tlBlank l' (Nat.le_of_not_lt hl'); rw [this] at hin; simp at hin
+  have hMs : ∀ m, m ∈ (s.ds d).mats → ∀ d' a, d' ≠ d → (s.ds d').att = some a → m ∈ (s.ds d').mats → a = n.getD s.nNs := by
+    intro m hm d' a ne ha hin
+    rcases hB m hm with e | g
+    · rw [← e]; exact ((h.dsOk d' a ha).2 m hin).symm
+    · exact matFree_fact' h g d' a (by simp [ne]) ha hin
+  have hw0 : InvW (fun l => l ∉ (s.ds d).tls) (fun d' => d' ≠ d) (setDs s d { (s.ds d) with nss := [] }) :=
+    invW_setDs d (invW_of_inv _ _ h) _ hd (h.dsLt d).1 (h.dsLt d).2
+  cases n with
+  | some n0 =>
+    simp only [Option.getD] at hLs hMs
+    simp only [step] at hC ⊢
+    split
+    · next hcond =>
+      simp only [Bool.and_eq_true, List.isEmpty_iff] at hcond
+      apply inv_setDs h d _ hd
+      · intro a _; simp [hcond.1.2, hcond.2]
+      · simp [hcond.1.2]
+      · simp [hcond.2]
+    · next hcond =>
+      simp only [hcond] at hC
+      split
+      · next hok =>
+        refine inv_unify_core d n0 (s.ds d).tls (s.ds d).mats hw0 hd (by simp [setDs, upd]) (by simp [setDs, upd]) ?_ ?_ hok _
+        · intro l hl
+          obtain ⟨x, y⟩ := hLs l hl
+          refine ⟨fun d' a q ha hm => ?_, fun t ht l' p hin => y t ht l' p hin⟩
+          simp only [setDs, upd, q, if_false] at ha hm
+          exact x d' a q ha hm
+        · intro m hm d' a q ha hin
+          simp only [setDs, upd, q, if_false] at ha hin
+          exact hMs m hm d' a q ha hin
+      · next hok =>
+        simp [hok] at hC
+  | none =>
+    simp only [Option.getD] at hLs hMs
+    simp only [step] at hC ⊢
+    split
+    · next hcond => exact h
+    · next hcond =>
+      simp only [hcond] at hC
+      split
+      · next hok =>
+        have g := grows_newNs (setDs s d { (s.ds d) with nss := [] }) false
+        have hw1 := invW_setDs d (invW_grows g hw0)
+          { ((newNs (setDs s d { (s.ds d) with nss := [] }) false).1.ds d) with
+              nss := addOnce ((newNs (setDs s d { (s.ds d) with nss := [] }) false).1.ds d).nss
+                (newNs (setDs s d { (s.ds d) with nss := [] }) false).2 }
+          (by simpa [newNs, setDs] using hd)
+          (by intro l hl; simp [newNs, setDs, upd] at hl ⊢; exact (h.dsLt d).1 l hl)
+          (by intro m hm; simp [newNs, setDs, upd] at hm ⊢; exact (h.dsLt d).2 m hm)
+        refine inv_unify_core d s.nNs (s.ds d).tls (s.ds d).mats hw1 (by simpa [dsAddNs, newNs, setDs] using hd)
+          (by simp [dsAddNs, newNs, setDs, upd]) (by simp [dsAddNs, newNs, setDs, upd]) ?_ ?_ hok _
+        · intro l hl
+          obtain ⟨x, y⟩ := hLs l hl
+          refine ⟨fun d' a q ha hm => ?_, fun t ht l' p hin => y t ht l' p hin⟩
+          simp only [newNs, setDs, upd, q, if_false] at ha hm
+          exact x d' a q ha hm
+        · intro m hm d' a q ha hin
+          simp only [newNs, setDs, upd, q, if_false] at ha hin
+          exact hMs m hm d' a q ha hin
+      · next hok =>
+        simp [hok] at hC
+
+/-! ### `DataSet.read` -/
+
+theorem grows_requireList (n : Nat) (cs : Bool) : ∀ (ls : List String) (s : Store),
+    Grows s (requireList s n cs ls).1 ∧ ∀ x, x ∈ (requireList s n cs ls).2 → x ∈ mem (requireList s n cs ls).1 n
+  | [], s => ⟨Grows.refl s, by simp [requireList]⟩
+  | l :: ls, s => by
+    simp only [requireList]
+    obtain ⟨g2, m2⟩ := grows_requireList n cs ls (require s n cs l).1
+    refine ⟨(grows_require s n cs l).trans g2, ?_⟩
+    intro x hx
+    simp at hx
+    rcases hx with e | hx
+    · subst e; exact g2.mem _ _ (mem_require s n cs l)
+    · exact m2 x hx
+
+theorem inv_dsAddMat {s : Store} (h : Inv s) (d m : Nat) (hd : d < s.nDs) (hm : m < s.nMat)
+    (hatt : ∀ a, (s.ds d).att = some a → (s.mat m).ns = a) : Inv (dsAddMat s d m) := by
+  simp only [dsAddMat]
+  apply inv_setDs h d _ hd
+  · intro a ha
+    have := h.dsOk d a ha
+    refine ⟨this.1, fun m' hm' => ?_⟩
+    rcases mem_addOnce hm' with hm' | hm'
+    · exact this.2 m' hm'
+    · subst hm'; exact hatt a ha
+  · exact (h.dsLt d).1
+  · intro m' hm'
+    rcases mem_addOnce hm' with hm' | hm'
+    · exact (h.dsLt d).2 m' hm'
+    · subst hm'; exact hm
+
+theorem inv_dsAddTl {s : Store} (h : Inv s) (d l : Nat) (hd : d < s.nDs) (hl : l < s.nTl)
+    (hatt : ∀ a, (s.ds d).att = some a → (s.tl l).ns = a) : Inv (dsAddTl s d l) := by
+  simp only [dsAddTl]
+  apply inv_setDs h d _ hd
+  · intro a ha
+    have := h.dsOk d a ha
+    refine ⟨fun l' hl' => ?_, this.2⟩
+    rcases mem_addOnce hl' with hl' | hl'
+    · exact this.1 l' hl'
+    · subst hl'; exact hatt a ha
+  · intro l' hl'
+    rcases mem_addOnce hl' with hl' | hl'
+    · exact (h.dsLt d).1 l' hl'
+    · subst hl'; exact hl
+  · exact (h.dsLt d).2
+
+/-- data set `d` is detached or attached to exactly `n` -/
+def AttOk (s : Store) (d n : Nat) : Prop := d < s.nDs ∧ ∀ a, (s.ds d).att = some a → a = n
+
+theorem attOk_grows {s s' : Store} {d n : Nat} (g : Grows s s') (h : AttOk s d n) : AttOk s' d n := by
+  refine ⟨by rw [g.nDs]; exact h.1, ?_⟩
+  intro a ha; rw [g.ds] at ha; exact h.2 a ha
+
+theorem inv_readMatrix {s : Store} (h : Inv s) (d n : Nat) (cs : Bool) (rows : List String) (ha : AttOk s d n) :
+    Inv (dsAddMat (allocMat (requireList s n cs rows).1 { ns := n, keys := mergeKeys [] (requireList s n cs rows).2 }).1 d
+          (allocMat (requireList s n cs rows).1 { ns := n, keys := mergeKeys [] (requireList s n cs rows).2 }).2)
+    ∧ AttOk (dsAddMat (allocMat (requireList s n cs rows).1 { ns := n, keys := mergeKeys [] (requireList s n cs rows).2 }).1 d
+          (allocMat (requireList s n cs rows).1 { ns := n, keys := mergeKeys [] (requireList s n cs rows).2 }).2) d n := by
+  obtain ⟨g, m⟩ := grows_requireList n cs rows s
+  have ha1 := attOk_grows g ha
+  have i1 : Inv (allocMat (requireList s n cs rows).1 { ns := n, keys := mergeKeys [] (requireList s n cs rows).2 }).1 := by
+    apply inv_allocMat (inv_grows g h)
+    intro x hx
+    rcases mergeKeys_sub _ _ x hx with hx | hx
+    · simp at hx
+    · exact m x hx
+  refine ⟨?_, ?_⟩
+  · apply inv_dsAddMat i1 d _ (by simp only [allocMat]; exact ha1.1) (by simp [allocMat])
+    intro a hatt
+    have : a = n := ha1.2 a hatt
+    subst this
+    simp [allocMat, upd]
+  · refine ⟨by simp only [dsAddMat, setDs, allocMat]; exact ha1.1, ?_⟩
+    intro a hatt
+    simp only [dsAddMat, setDs, upd, if_true, allocMat] at hatt
+    exact ha1.2 a hatt
+
+theorem inv_readTreeBlock {s : Store} (h : Inv s) (d n : Nat) (docs : List (List String)) (ha : AttOk s d n) :
+    Inv (setTrees (readTrees (dsAddTl (allocTl s n).1 d (allocTl s n).2) n docs).1 (allocTl s n).2
+          (readTrees (dsAddTl (allocTl s n).1 d (allocTl s n).2) n docs).2) := by
+  have i1 := inv_allocTl h n
+  have i2 : Inv (dsAddTl (allocTl s n).1 d (allocTl s n).2) := by
+    apply inv_dsAddTl i1 d _ (by simp only [allocTl]; exact ha.1) (by simp [allocTl])
+    intro a hatt
+    have : a = n := ha.2 a hatt
+    subst this
+    simp [allocTl, upd]
+  obtain ⟨i3, f3, e3⟩ := inv_readTrees n docs i2
+  apply inv_setTrees i3 _ _ (by rw [f3.nTl]; simp [dsAddTl, setDs, allocTl])
+  intro t ht
+  rw [f3.tl]
+  have e : ((dsAddTl (allocTl s n).1 d (allocTl s n).2).tl (allocTl s n).2).ns = n := by
+    simp [dsAddTl, setDs, allocTl, upd]
+  rw [e]
+  exact e3 t ht
+
+/-- the four shapes of a document, read into namespace `n` of a data set that is detached or attached to `n` -/
+theorem inv_dsread_core {σ : Store} (i0 : Inv σ) (d n : Nat) (cs : Bool) (taxa : List String) (a0 : AttOk σ d n) :
+    Inv (requireList σ n cs taxa).1
+    ∧ (∀ rows, Inv (dsAddMat (allocMat (requireList (requireList σ n cs taxa).1 n cs rows).1
+          { ns := n, keys := mergeKeys [] (requireList (requireList σ n cs taxa).1 n cs rows).2 }).1 d
+        (allocMat (requireList (requireList σ n cs taxa).1 n cs rows).1
+          { ns := n, keys := mergeKeys [] (requireList (requireList σ n cs taxa).1 n cs rows).2 }).2))
+    ∧ (∀ docs, Inv (setTrees (readTrees (dsAddTl (allocTl (requireList σ n cs taxa).1 n).1 d (allocTl (requireList σ n cs taxa).1 n).2) n docs).1
+          (allocTl (requireList σ n cs taxa).1 n).2
+          (readTrees (dsAddTl (allocTl (requireList σ n cs taxa).1 n).1 d (allocTl (requireList σ n cs taxa).1 n).2) n docs).2))
+    ∧ (∀ rows docs s2, s2 = dsAddMat (allocMat (requireList (requireList σ n cs taxa).1 n cs rows).1
+          { ns := n, keys := mergeKeys [] (requireList (requireList σ n cs taxa).1 n cs rows).2 }).1 d
+        (allocMat (requireList (requireList σ n cs taxa).1 n cs rows).1
+          { ns := n, keys := mergeKeys [] (requireList (requireList σ n cs taxa).1 n cs rows).2 }).2 →
+        Inv (setTrees (readTrees (dsAddTl (allocTl s2 n).1 d (allocTl s2 n).2) n docs).1 (allocTl s2 n).2
+          (readTrees (dsAddTl (allocTl s2 n).1 d (allocTl s2 n).2) n docs).2)) := by
+  obtain ⟨g1, _⟩ := grows_requireList n cs taxa σ
+  have i1 := inv_grows g1 i0
+  have a1 := attOk_grows g1 a0
+  refine ⟨i1, fun rows => (inv_readMatrix i1 d n cs rows a1).1, fun docs => inv_readTreeBlock i1 d n docs a1, ?_⟩
+  intro rows docs s2 hs2
+  obtain ⟨i2, a2⟩ := inv_readMatrix i1 d n cs rows a1
+  rw [← hs2] at i2 a2
+  exact inv_readTreeBlock i2 d n docs a2
+
+theorem inv_dsread {s : Store} (h : Inv s) (d : Nat) (taxa : List String) (rows : Option (List String))
+    (trees : Option (List (List String))) (hd : d < s.nDs) : Inv (step s (.dsread d taxa rows trees)).1 := by
+  cases hatt : (s.ds d).att with
+  | some a =>
+    have a0 : AttOk s d a := ⟨hd, fun a' ha' => by rw [hatt] at ha'; exact (Option.some.inj ha').symm⟩
+    obtain ⟨c1, c2, c3, c4⟩ := inv_dsread_core h d a (s.ns a).cs taxa a0
+    cases rows with
+    | none =>
+      cases trees with
+      | none => simp only [step, hatt]; exact c1
+      | some docs => simp only [step, hatt]; exact c3 docs
+    | some rows =>
+      cases trees with
+      | none => simp only [step, hatt]; exact c2 rows
+      | some docs => simp only [step, hatt]; exact c4 rows docs _ rfl
+  | none =>
+    have g := grows_newNs s false
+    have i := inv_grows g h
+    have i0 : Inv (dsAddNs (newNs s false).1 d (newNs s false).2) := by
+      simp only [dsAddNs]
+      exact inv_setDs i d _ (by rw [g.nDs]; exact hd) (i.dsOk d) (i.dsLt d).1 (i.dsLt d).2
+    have a0 : AttOk (dsAddNs (newNs s false).1 d (newNs s false).2) d (newNs s false).2 := by
+      refine ⟨by simp only [dsAddNs, setDs, newNs]; exact hd, ?_⟩
+      intro a ha
+      simp only [dsAddNs, setDs, upd, if_true, newNs] at ha
+      rw [hatt] at ha; simp at ha
+    obtain ⟨c1, c2, c3, c4⟩ := inv_dsread_core i0 d (newNs s false).2
+      (((dsAddNs (newNs s false).1 d (newNs s false).2).ns (newNs s false).2).cs) taxa a0
+    cases rows with
+    | none =>
+      cases trees with
+      | none => simp only [step, hatt]; exact c1
+      | some docs => simp only [step, hatt]; exact c3 docs
+    | some rows =>
+      cases trees with
+      | none => simp only [step, hatt]; exact c2 rows
+      | some docs => simp only [step, hatt]; exact c4 rows docs _ rfl
+
+end Aux
+
+/-- CLOSURE, every operation.  Clauses (a) and (c) of the statement (with the allocation discipline) are preserved by EVERY
+operation of the container alphabet inside the ownership domain `valid`: besides the operations of `closed_step_partial` also
+`+` with a plain list, `TreeList(...)` copies, `TreeList`/`CharacterMatrix` `migrate_taxon_namespace`/`reconstruct_taxon_namespace`
+(a matrix pass that is refused is outside `valid`: see the known finding), matrix copies, `DataSet.unify_taxon_namespaces`
+and `DataSet.read`. -/
+theorem closed_step (s : Store) (op : Op) (h : Inv s) (hv : valid s op = true) : Inv (step s op).1 := by
+  cases hc : covered op with
+  | true => exact closed_step_partial s op h hv hc
+  | false =>
+    have hv' := hv
+    simp only [valid, Bool.and_eq_true] at hv'
+    obtain ⟨⟨_, hr⟩, ho⟩ := hv'
+    cases op with
+    | add l src =>
+      cases src with
+      | list l2 => simp [covered] at hc
+      | trees ts => simp only [owner] at ho; exact inv_add_trees h l ts ho
+    | lclone l n => exact inv_lclone h l n
+    | mclone m n => simp only [step]; exact inv_cloneMat h m _
+    | lmig l n u => simp only [owner] at ho; simp only [step]; exact inv_migrateTl h l n u ho
+    | lrec l u => simp only [step]; exact inv_migrateTl h l _ u (by simp [tlRebindOk])
+    | mmig m n u =>
+      simp only [owner, Bool.and_eq_true, Bool.or_eq_true, beq_iff_eq] at ho
+      simp only [step]
+      apply inv_migrateMat h m n u [] ho.2
+      rcases ho.1 with e | f
+      · intro d a ha hm; rw [← e]; exact ((h.dsOk d a ha).2 m hm).symm
+      · exact matFree_fact h f
+    | mrec m u =>
+      simp only [owner] at ho
+      simp only [step]
+      apply inv_migrateMat h m _ u [] ho
+      intro d a ha hm; exact ((h.dsOk d a ha).2 m hm).symm
+    | dsunify d n =>
+      simp only [inRange, decide_eq_true_eq] at hr
+      exact inv_dsunify h d n hr ho
+    | dsread d taxa rows trees =>
+      simp only [inRange, decide_eq_true_eq] at hr
+      exact inv_dsread h d taxa rows trees hr
+    | _ => simp [covered] at hc
+
+/-- a history every step of which is inside the ownership domain -/
+def validHist (s : Store) : List Op → Bool
+  | [] => true
+  | op :: ops => valid s op && validHist (step s op).1 ops
+
+/-- closure holds after every history of valid operations (induction over the history) -/
+theorem closed_reachable : ∀ (ops : List Op) (s : Store), Inv s → validHist s ops = true → Inv (run s ops)
+  | [], s, h, _ => h
+  | op :: ops, s, h, hv => by
+    simp only [validHist, Bool.and_eq_true] at hv
+    exact closed_reachable ops _ (closed_step s op h hv.1) hv.2
+
+/-- from the empty world: clauses (a) and (c) hold after any valid history -/
+theorem closed_from_init (ops : List Op) (hv : validHist init ops = true) : Closed (run init ops) :=
+  (closed_reachable ops init inv_init hv).toClosed
+
 /-- a history all of whose steps are in the domain and covered -/
 def validRun (s : Store) : List Op → Bool
   | [] => true
@@ -1075,6 +2139,11 @@ theorem closed_stepG_partial (s : Store) (op : Op) (h : Inv s) (hv : valid s op 
 
 theorem stepG_refuses (s : Store) (op : Op) (hi : idsOk s op = false) : stepG s op = (s, .indexError) := by
   simp [stepG, hi]
+
+/-- ... and so does the guarded step the driver runs -/
+theorem closed_stepG (s : Store) (op : Op) (h : Inv s) (hv : valid s op = true) : Inv (stepG s op).1 := by
+  rw [stepG_of_valid hv]; exact closed_step s op h hv
+
 
 /-- clause (c): `pop(i)` / `del tl[i]` takes exactly the tree at position `i` out of the list, leaves that tree as it was,
 and the removed tree still refers only to members of its own namespace (as does everything else: `Inv`) -/
@@ -1432,6 +2501,382 @@ theorem migrateTree_unify_spec (s : Store) (t n : Nat) (memo : Memo)
   intro x y _ h
   exact ⟨h, lookupFirst_mem h⟩
 
+/-! ## clause (b) for matrix passes (`CharacterMatrix.reconstruct_taxon_namespace`, `mapKeys`) -/
+
+/-- A label-unifying pass over the sequence keys `xs` of a matrix (accepted or refused): every key of the result is either a key
+the pass did not move, or the taxon label resolution in the final namespace answers for the label of one of the processed keys
+(so it is a member of `n` carrying that label up to the case rule: `resolved_member_label`; and two moved sequences would sit on
+one taxon exactly when their labels are equal: `same_taxon_iff_equal_labels` — which is when the pass refuses). The memo/store
+hypotheses are re-established, so the statement composes with `mapTaxa_unify_spec` over the components of a data set. -/
+theorem mapKeys_unify_spec (n : Nat) : ∀ (xs : List Nat) (s : Store) (memo : Memo) (cur : List Nat),
+    FreshNs s n → (∀ x, x ∈ xs → x < s.nTaxa) → Aux.MemoOk s n memo →
+    (∀ y, y ∈ (mapKeys s n true memo cur xs).2.2.1 →
+        y ∈ cur ∨ ∃ x, x ∈ xs ∧ lookupFirst (mapKeys s n true memo cur xs).1 n (s.ns n).cs (s.label x) = some y)
+    ∧ Aux.Ext n s (mapKeys s n true memo cur xs).1
+    ∧ Aux.MemoOk (mapKeys s n true memo cur xs).1 n (mapKeys s n true memo cur xs).2.1
+  | [], s, memo, cur, hf, _, hm => ⟨fun y hy => Or.inl (by simpa [mapKeys] using hy), Aux.Ext.refl hf, hm⟩
+  | x :: xs, s, memo, cur, hf, hx, hm => by
+    obtain ⟨e1, l1, m1⟩ := Aux.mapOne_unify s n memo x hf (hx x (by simp)) hm
+    have hx' : ∀ x', x' ∈ xs → x' < (mapOne s n true memo x).1.nTaxa :=
+      fun x' h => Nat.lt_of_lt_of_le (hx x' (by simp [h])) e1.nT
+    -- transport a fact about the tail (stated from the intermediate store) back to `s`
+    have back : ∀ (cur' : List Nat),
+        (∀ y, y ∈ (mapKeys (mapOne s n true memo x).1 n true (mapOne s n true memo x).2.1 cur' xs).2.2.1 →
+          y ∈ cur' ∨ ∃ x', x' ∈ xs ∧ lookupFirst (mapKeys (mapOne s n true memo x).1 n true (mapOne s n true memo x).2.1 cur' xs).1 n
+            ((mapOne s n true memo x).1.ns n).cs ((mapOne s n true memo x).1.label x') = some y) →
+        (∀ y, y ∈ (mapKeys (mapOne s n true memo x).1 n true (mapOne s n true memo x).2.1 cur' xs).2.2.1 →
+          y ∈ cur' ∨ ∃ x', x' ∈ x :: xs ∧ lookupFirst (mapKeys (mapOne s n true memo x).1 n true (mapOne s n true memo x).2.1 cur' xs).1 n
+            (s.ns n).cs (s.label x') = some y) := by
+      intro cur' h y hy
+      rcases h y hy with h | ⟨x', hx'', hl⟩
+      · exact Or.inl h
+      · right
+        refine ⟨x', by simp [hx''], ?_⟩
+        rw [e1.cs, e1.lab x' (hx x' (by simp [hx'']))] at hl
+        exact hl
+    simp only [mapKeys, Bool.true_or, if_true]
+    split
+    · obtain ⟨r, e2, m2⟩ := mapKeys_unify_spec n xs _ _ cur e1.fresh hx' m1
+      exact ⟨back cur r, e1.trans e2, m2⟩
+    · split
+      · exact ⟨fun y hy => Or.inl hy, e1, m1⟩
+      · obtain ⟨r, e2, m2⟩ := mapKeys_unify_spec n xs _ _ (cur.filter (fun k => k != x) ++ [(mapOne s n true memo x).2.2]) e1.fresh hx' m1
+        refine ⟨?_, e1.trans e2, m2⟩
+        intro y hy
+        rcases back _ r y hy with h | h
+        · simp only [List.mem_append, List.mem_filter, List.mem_singleton] at h
+          rcases h with ⟨h, _⟩ | h
+          · exact Or.inl h
+          · right
+            refine ⟨x, by simp, ?_⟩
+            rw [h]
+            have := e2.look _ _ (by rw [e1.cs]; exact l1)
+            rw [e1.cs] at this; exact this
+        · exact Or.inr h
+
+/-- an accepted matrix pass leaves the matrix closed: bound to `n`, every sequence keyed by a member of `n` -/
+theorem migrateMat_ok_closed (s : Store) (m n : Nat) (u : Bool) (memo : Memo) (hok : (migrateMat s m n u memo).2.2 = true) :
+    ((migrateMat s m n u memo).1.mat m).ns = n
+    ∧ ∀ k, k ∈ ((migrateMat s m n u memo).1.mat m).keys → k ∈ mem (migrateMat s m n u memo).1 n := by
+  simp only [migrateMat] at hok ⊢
+  refine ⟨by simp [upd], ?_⟩
+  intro k hk
+  simp only [upd, if_true] at hk
+  rcases Aux.mem_mapKeys n u _ s memo _ hok k hk with h | ⟨hc, hn⟩
+  · exact h
+  · exact absurd hc hn
+
+/-- THE KNOWN FINDING, precisely: a refused label-unifying matrix pass leaves the matrix bound to the new namespace `n` with every
+sequence keyed either by a taxon of its previous key set (not moved) or by a label-resolved member of `n` — nothing else; it is
+the not-moved keys that may lie outside `n` (`matrix-merge-refusal-not-atomic`) -/
+theorem migrateMat_refused_state (s : Store) (m n : Nat) (memo : Memo)
+    (hf : FreshNs s n) (hx : ∀ x, x ∈ (s.mat m).keys → x < s.nTaxa) (hm : Aux.MemoOk s n memo) :
+    ((migrateMat s m n true memo).1.mat m).ns = n
+    ∧ ∀ k, k ∈ ((migrateMat s m n true memo).1.mat m).keys →
+        k ∈ (s.mat m).keys ∨ (k ∈ mem (migrateMat s m n true memo).1 n
+          ∧ ∃ x, x ∈ (s.mat m).keys ∧ keyOf (s.ns n).cs ((migrateMat s m n true memo).1.label k) = keyOf (s.ns n).cs (s.label x)) := by
+  obtain ⟨r, _, _⟩ := mapKeys_unify_spec n (s.mat m).keys s memo (s.mat m).keys hf hx hm
+  simp only [migrateMat]
+  refine ⟨by simp [upd], ?_⟩
+  intro k hk
+  simp only [upd, if_true] at hk
+  rcases r k hk with h | ⟨x, hx', hl⟩
+  · exact Or.inl h
+  · right
+    obtain ⟨a, b⟩ := resolved_member_label _ n _ _ k hl
+    exact ⟨a, x, hx', b⟩
+
+/-! ## `unify_taxa_by_label=False`: distinct taxon objects stay distinct -/
+
+/-- PARTIAL (one and two items; not lifted to whole `mapTaxa` runs with a memo): with `unify_taxa_by_label=False` an item whose
+taxon `x` is not a member of the target and not yet in the memo is put on a brand-new taxon — not a member before (so distinct
+from every taxon the namespace held, also from those with the same label), carrying exactly `x`'s label, and remembered in the
+memo; a second such item with a different taxon gets a different new taxon; an item whose taxon is a member keeps it. -/
+theorem unify_false_distinct_partial (s : Store) (n : Nat) (memo : Memo) (x x' : Nat) (hf : FreshNs s n)
+    (hx : x ∉ mem s n) (hg : memoGet memo x = none) (hx' : x' ∉ mem s n) (hne : x' ≠ x) (hg' : memoGet memo x' = none)
+    (hlt : x < s.nTaxa) (hlt' : x' < s.nTaxa) :
+    (mapOne s n false memo x).2.2 ∉ mem s n
+    ∧ (mapOne s n false memo x).2.2 ∈ mem (mapOne s n false memo x).1 n
+    ∧ (mapOne s n false memo x).1.label (mapOne s n false memo x).2.2 = s.label x
+    ∧ memoGet (mapOne s n false memo x).2.1 x = some (mapOne s n false memo x).2.2
+    ∧ (mapOne (mapOne s n false memo x).1 n false (mapOne s n false memo x).2.1 x').2.2 ≠ (mapOne s n false memo x).2.2
+    ∧ (∀ z, z ∈ mem s n → (mapOne s n false memo z).2.2 = z) := by
+  have e1 : mapOne s n false memo x = ((newTaxon s n (s.label x)).1, (x, s.nTaxa) :: memo, s.nTaxa) := by
+    unfold mapOne
+    have : ((mem s n).contains x) = false := by simpa using hx
+    simp only [this, hg, Bool.false_or, Bool.not_false, if_true, Bool.false_eq_true, if_false]
+    rfl
+  have notmem : x' ∉ mem (newTaxon s n (s.label x)).1 n := by
+    simp only [newTaxon, mem, upd, if_true, List.mem_append, List.mem_singleton]
+    intro h
+    rcases h with h | h
+    · exact hx' h
+    · omega
+  have e2 : (mapOne (newTaxon s n (s.label x)).1 n false ((x, s.nTaxa) :: memo) x').2.2 = s.nTaxa + 1 := by
+    unfold mapOne
+    have c : ((mem (newTaxon s n (s.label x)).1 n).contains x') = false := by simpa using notmem
+    have g : memoGet ((x, s.nTaxa) :: memo) x' = none := by
+      rw [Aux.memoGet_cons]; simp [Ne.symm hne, hg']
+    simp only [c, g, Bool.false_or, Bool.not_false, if_true, Bool.false_eq_true, if_false]
+    rfl
+  rw [e1]
+  refine ⟨?_, ?_, ?_, ?_, ?_, ?_⟩
+  · intro h; exact Nat.lt_irrefl _ (hf _ h)
+  · simp [newTaxon, mem, upd]
+  · simp [newTaxon, upd]
+  · rw [Aux.memoGet_cons]; simp
+  · simp only []
+    rw [e2]; simp
+  · intro z hz
+    unfold mapOne
+    have : ((mem s n).contains z) = true := by simpa using hz
+    simp only [this, Bool.false_or, Bool.not_true, Bool.false_eq_true, if_false]
+
+/-! ## freshness is a history invariant (not a hypothesis) -/
+
+open DendroModel.C11.Fresh in
+/-- every taxon id referred to anywhere (namespace members, node taxa, sequence keys) stays an allocated one under EVERY
+operation, valid or not -/
+theorem fresh_step (s : Store) (op : Op) (h : FrAll s) : FrAll (step s op).1 := by
+  cases op with
+  | ns cs labels => simp only [step]; exact frAll_newTaxa _ labels (frAll_newNs h cs).1
+  | tree n taxa =>
+    simp only [step]
+    apply frAll_allocTree h
+    intro x hx
+    simp only [List.mem_map] at hx
+    obtain ⟨o, _, e⟩ := hx
+    cases o with
+    | none => simp at e
+    | some i => simp at e; exact h.ns n x (List.mem_of_getElem? e)
+  | tlist n =>
+    cases n with
+    | none => simp only [step]; exact frAll_allocTl (frAll_newNs h false).1 _
+    | some n => simp only [step]; exact frAll_allocTl h n
+  | mat n idx =>
+    simp only [step]
+    apply frAll_allocMat h
+    intro x hx
+    simp only [List.mem_filterMap] at hx
+    obtain ⟨i, _, e⟩ := hx
+    exact h.ns n x (List.mem_of_getElem? e)
+  | ds => simp only [step]; exact frAll_of_eq h rfl rfl rfl rfl
+  | append l t st => simp only [step]; exact frAll_spliceT h _ _ _ _ _
+  | insert l i t st => simp only [step]; exact frAll_spliceT h _ _ _ _ _
+  | setitem l i t =>
+    simp only [step]
+    split
+    · exact frAll_spliceT h _ _ _ _ _
+    · exact frAll_importTrees _ _ _ h
+  | setslice l a b src => simp only [step]; exact frAll_srcInto h _ _ _ _
+  | extend l src => simp only [step]; exact frAll_srcInto h _ _ _ _
+  | add l src => simp only [step]; exact frAll_srcInto (frAll_spliceL (frAll_allocTl h _) _ _ _ _) _ _ _ _
+  | read l docs => simp only [step]; exact frAll_setTrees (frAll_readTrees _ docs h) _ _
+  | newtree l src =>
+    cases src with
+    | none => simp only [step]; exact frAll_setTrees (frAll_allocTree h _ (by simp)) _ _
+    | some t => simp only [step]; exact frAll_setTrees (frAll_cloneTree h t _) _ _
+  | getslice l a b => simp only [step]; exact frAll_setTrees (frAll_allocTl h _) _ _
+  | pop l i => simp only [step]; exact frAll_setTrees h _ _
+  | remove l t =>
+    simp only [step]
+    split
+    · exact frAll_setTrees h _ _
+    · exact h
+  | lclone l n =>
+    simp only [step]
+    have key : ∀ (r : Store × Memo), r = (if n.getD (s.tl l).ns = (s.tl l).ns then (s, (mem s (s.tl l).ns).map (fun x => (x, x)))
+        else cloneMemo s (n.getD (s.tl l).ns) (mem s (s.tl l).ns)) → FrAll r.1 ∧ MV r.1 r.2 := by
+      intro r hr
+      split at hr
+      · subst hr
+        refine ⟨h, ?_⟩
+        intro x y hxy
+        have : applyMemo ((mem s (s.tl l).ns).map (fun x => (x, x))) x = y := by simp [applyMemo, hxy]
+        rw [Aux.applyMemo_id] at this
+        subst this
+        -- x is a key of the identity memo, hence a member
+        simp only [memoGet] at hxy
+        cases hf : List.find? (fun p => p.1 == x) ((mem s (s.tl l).ns).map (fun x => (x, x))) with
+        | none => simp [hf] at hxy
+        | some p =>
+          have hm := List.mem_of_find?_eq_some hf
+          have hp := List.find?_some hf
+          simp only [List.mem_map] at hm
+          obtain ⟨z, hz, e⟩ := hm
+          subst e
+          have : z = x := by simpa using hp
+          subst this
+          exact h.ns _ z hz
+      · subst hr
+        obtain ⟨a, _, c⟩ := frAll_cloneMemo (n.getD (s.tl l).ns) (mem s (s.tl l).ns) h
+        exact ⟨a, c⟩
+    generalize hr : (if n.getD (s.tl l).ns = (s.tl l).ns then (s, (mem s (s.tl l).ns).map (fun x => (x, x)))
+        else cloneMemo s (n.getD (s.tl l).ns) (mem s (s.tl l).ns)) = r
+    obtain ⟨a, c⟩ := key r hr.symm
+    exact frAll_setTrees (frAll_copyTrees _ r.2 _ [] (frAll_allocTl a _) (fun x y hxy => c x y hxy)) _ _
+  | tclone t n => simp only [step]; exact frAll_cloneTree h t _
+  | mclone m n => simp only [step]; exact frAll_cloneMat h m _
+  | tmig t n u => simp only [step]; exact (frAll_migrateTree h t n u [] (mv_nil s)).1
+  | trec t u => simp only [step]; exact (frAll_migrateTree h t _ u [] (mv_nil s)).1
+  | lmig l n u => simp only [step]; exact (frAll_migrateTl h l n u [] (mv_nil s)).1
+  | lrec l u => simp only [step]; exact (frAll_migrateTl h l _ u [] (mv_nil s)).1
+  | mmig m n u => simp only [step]; exact (frAll_migrateMat h m n u [] (mv_nil s)).1
+  | mrec m u => simp only [step]; exact (frAll_migrateMat h m _ u [] (mv_nil s)).1
+  | mset m n i =>
+    simp only [step]
+    split
+    · exact h
+    · next x hx =>
+      split
+      · apply frAll_setMat h
+        intro y hy
+        rcases Aux.mem_addOnce hy with hy | hy
+        · exact h.mat m y hy
+        · subst hy; exact h.ns n y (List.mem_of_getElem? hx)
+      · exact h
+  | mnew m n i =>
+    simp only [step]
+    split
+    · exact h
+    · next x hx =>
+      split
+      · exact h
+      · split
+        · apply frAll_setMat h
+          intro y hy
+          simp at hy
+          rcases hy with hy | hy
+          · exact h.mat m y hy
+          · subst hy; exact h.ns n y (List.mem_of_getElem? hx)
+        · exact h
+  | dsaddN d n => simp only [step]; exact frAll_setDs h _ _
+  | dsaddL d l => simp only [step]; exact frAll_setDs h _ _
+  | dsaddM d m => simp only [step]; exact frAll_setDs h _ _
+  | dsnewlist d =>
+    simp only [step]
+    split
+    · exact frAll_setDs (frAll_allocTl h _) _ _
+    · exact frAll_setDs (frAll_allocTl (frAll_newNs h false).1 _) _ _
+  | dsnewmat d =>
+    simp only [step]
+    split
+    · exact frAll_setDs (frAll_allocMat h _ (by simp)) _ _
+    · exact frAll_setDs (frAll_allocMat (frAll_newNs h false).1 _ (by simp)) _ _
+  | dsnewns d => simp only [step]; exact frAll_setDs (frAll_newNs h false).1 _ _
+  | dsattach d n => simp only [step]; exact frAll_setDs h _ _
+  | dsdetach d => simp only [step]; exact frAll_setDs h _ _
+  | dsunify d n =>
+    cases n with
+    | some n0 =>
+      simp only [step]
+      split
+      · exact frAll_setDs h _ _
+      · have h0 : FrAll (setDs s d { (s.ds d) with nss := [] }) := frAll_setDs h _ _
+        obtain ⟨a, b, c⟩ := frAll_migrateTls n0 (s.ds d).tls [] h0 (mv_nil _)
+        have m := frAll_migrateMats n0 (s.ds d).mats _ a c
+        split
+        · exact frAll_setDs m _ _
+        · exact m
+    | none =>
+      simp only [step]
+      split
+      · exact h
+      · have h0 : FrAll (dsAddNs (newNs (setDs s d { (s.ds d) with nss := [] }) false).1 d
+            (newNs (setDs s d { (s.ds d) with nss := [] }) false).2) :=
+          frAll_setDs (frAll_newNs (frAll_setDs h _ _) false).1 _ _
+        obtain ⟨a, b, c⟩ := frAll_migrateTls (newNs (setDs s d { (s.ds d) with nss := [] }) false).2 (s.ds d).tls [] h0 (mv_nil _)
+        have m := frAll_migrateMats (newNs (setDs s d { (s.ds d) with nss := [] }) false).2 (s.ds d).mats _ a c
+        split
+        · exact frAll_setDs m _ _
+        · exact m
+  | dsread d taxa rows trees =>
+    -- the three blocks, from any fresh store
+    have core : ∀ (σ : Store) (n : Nat) (cs : Bool), FrAll σ →
+        FrAll (requireList σ n cs taxa).1
+        ∧ (∀ rws, FrAll (dsAddMat (allocMat (requireList (requireList σ n cs taxa).1 n cs rws).1
+              { ns := n, keys := mergeKeys [] (requireList (requireList σ n cs taxa).1 n cs rws).2 }).1 d
+            (allocMat (requireList (requireList σ n cs taxa).1 n cs rws).1
+              { ns := n, keys := mergeKeys [] (requireList (requireList σ n cs taxa).1 n cs rws).2 }).2))
+        ∧ (∀ (σ2 : Store), FrAll σ2 → ∀ docs, FrAll (setTrees (readTrees (dsAddTl (allocTl σ2 n).1 d (allocTl σ2 n).2) n docs).1
+              (allocTl σ2 n).2 (readTrees (dsAddTl (allocTl σ2 n).1 d (allocTl σ2 n).2) n docs).2)) := by
+      intro σ n cs hσ
+      obtain ⟨a, _, _⟩ := frAll_requireList n cs taxa hσ
+      refine ⟨a, ?_, ?_⟩
+      · intro rws
+        obtain ⟨a2, _, c2⟩ := frAll_requireList n cs rws a
+        apply frAll_setDs
+        apply frAll_allocMat a2
+        intro x hx
+        rcases Fresh.mergeKeys_sub _ _ x hx with hx | hx
+        · simp at hx
+        · exact c2 x hx
+      · intro σ2 h2 docs
+        exact frAll_setTrees (frAll_readTrees n docs (frAll_setDs (frAll_allocTl h2 n) _ _)) _ _
+    cases hatt : (s.ds d).att with
+    | some a =>
+      obtain ⟨c1, c2, c3⟩ := core s a (s.ns a).cs h
+      cases rows with
+      | none =>
+        cases trees with
+        | none => simp only [step, hatt]; exact c1
+        | some docs => simp only [step, hatt]; exact c3 _ c1 docs
+      | some rws =>
+        cases trees with
+        | none => simp only [step, hatt]; exact c2 rws
+        | some docs => simp only [step, hatt]; exact c3 _ (c2 rws) docs
+    | none =>
+      have h0 : FrAll (dsAddNs (newNs s false).1 d (newNs s false).2) := frAll_setDs (frAll_newNs h false).1 _ _
+      obtain ⟨c1, c2, c3⟩ := core (dsAddNs (newNs s false).1 d (newNs s false).2) (newNs s false).2
+        (((dsAddNs (newNs s false).1 d (newNs s false).2).ns (newNs s false).2).cs) h0
+      cases rows with
+      | none =>
+        cases trees with
+        | none => simp only [step, hatt]; exact c1
+        | some docs => simp only [step, hatt]; exact c3 _ c1 docs
+      | some rws =>
+        cases trees with
+        | none => simp only [step, hatt]; exact c2 rws
+        | some docs => simp only [step, hatt]; exact c3 _ (c2 rws) docs
+  | taadd n t => simp only [step]; exact h
+  | newtreeseed l t =>
+    simp only [step]
+    obtain ⟨a, b⟩ := frAll_addTaxa (s.tl l).ns (s.tree t).taxa h (h.tree t)
+    exact frAll_setTrees (frAll_allocTree a _ (fun x hx => by rw [b]; exact h.tree t x hx)) _ _
+  | treeseed n t =>
+    cases n with
+    | some n =>
+      simp only [step]
+      obtain ⟨a, b⟩ := frAll_addTaxa n (s.tree t).taxa h (h.tree t)
+      exact frAll_allocTree a _ (fun x hx => by rw [b]; exact h.tree t x hx)
+    | none =>
+      simp only [step]
+      obtain ⟨a0, b0⟩ := frAll_newNs h false
+      obtain ⟨a, b⟩ := frAll_addTaxa (newNs s false).2 (s.tree t).taxa a0 (fun x hx => by rw [b0]; exact h.tree t x hx)
+      exact frAll_allocTree a _ (fun x hx => by rw [b, b0]; exact h.tree t x hx)
+
+/-- ... hence along every history from the empty world, whatever the operations -/
+theorem fresh_reachable : ∀ (ops : List Op) (s : Store), Fresh.FrAll s → Fresh.FrAll (run s ops)
+  | [], _, h => h
+  | op :: ops, s, h => fresh_reachable ops _ (fresh_step s op h)
+
+/-- the hypotheses of `mapTaxa_unify_spec` / `migrateTree_unify_spec` are facts about every reachable world -/
+theorem freshNs_reachable (ops : List Op) (n t : Nat) :
+    FreshNs (run init ops) n ∧ (∀ x, some x ∈ ((run init ops).tree t).taxa → x < (run init ops).nTaxa) :=
+  ⟨(fresh_reachable ops init Fresh.frAll_init).ns n, (fresh_reachable ops init Fresh.frAll_init).tree t⟩
+
+/-- clause (b) for `Tree.migrate_taxon_namespace(ns)` / `reconstruct_taxon_namespace()` in ANY reachable world, no side conditions:
+the tree is bound to `n`, no node is dropped or invented, and every node with taxon `x` sits on the member of `n` that label
+resolution answers for `x`'s label (so: same taxon ⇔ equal labels under `n`'s case rule, by `same_taxon_iff_equal_labels`) -/
+theorem migrateTree_unify_reachable (ops : List Op) (t n : Nat) :
+    ((migrateTree (run init ops) t n true []).1.tree t).ns = n
+    ∧ related (fun x y => lookupFirst (migrateTree (run init ops) t n true []).1 n ((run init ops).ns n).cs ((run init ops).label x) = some y
+                          ∧ y ∈ mem (migrateTree (run init ops) t n true []).1 n)
+        ((run init ops).tree t).taxa ((migrateTree (run init ops) t n true []).1.tree t).taxa := by
+  obtain ⟨f, x⟩ := freshNs_reachable ops n t
+  obtain ⟨a, b, _, _⟩ := migrateTree_unify_spec (run init ops) t n [] f x (Aux.memoOk_nil _ _)
+  exact ⟨a, b⟩
+
 /-! ## non-vacuity: the hypotheses are satisfiable and the conclusions are not trivial -/
 
 /-- a foreign tree appended to a list of another namespace: valid, covered, and the world stays closed -/
@@ -1463,6 +2908,13 @@ example : FreshNs demo 0 ∧ (∀ x, some x ∈ (demo.tree 0).taxa → x < demo.
 case-insensitive target, `C` on a new taxon (5) -/
 example : ((migrateTree demo 0 0 true []).1.tree 0).taxa = [some 5, some 0, some 0]
     ∧ mem (migrateTree demo 0 0 true []).1 0 = [0, 1, 5] := by decide +kernel
+
+/-- a valid history through the collection-level operations of `closed_step`: list migration, copy, `+` with a plain list,
+matrix migration and copy, data-set read and unification -/
+example : validHist init [.ns false ["A", "b"], .ns true ["a", "C"], .tree 1 [none, some 0, some 1], .tlist (some 0),
+    .append 0 0 .migrate, .lmig 0 1 true, .lrec 0 false, .lclone 0 (some 0), .tree 1 [some 1], .add 0 (.trees [2]),
+    .mat 1 [0, 1], .mmig 0 0 true, .mclone 0 (some 1), .ds, .dsaddL 0 0, .dsaddM 0 0, .dsunify 0 none,
+    .dsread 0 ["C", "d"] (some ["C"]) (some [["d", "C"]])] = true := by decide +kernel
 
 /-- the ownership hypothesis of `closed_step_partial` cannot be dropped: importing a tree that another list of a different
 namespace still holds is what the code does (in-place migration) and it breaks clause (a) for the first list -/
